@@ -269,6 +269,44 @@ private:
 
         png_bytep row_ptr = (png_bytep)( &( buffer.data()[0]));
 
+        if( this->_number_passes > 1 )
+        {
+            // Interlaced image: libpng merges the pixels of every pass into what the earlier passes left in the row
+            // it is handed, so every row needs its own buffer that lives across all passes (with the single row
+            // buffer used below, rows received pixels of their neighbours, also in a full read).
+            std::size_t const image_height = static_cast< std::size_t >( this->_info._height );
+
+            std::vector< row_buffer_helper_t > rows( image_height, row_buffer_helper_t( rowbytes, true ));
+            std::vector< png_bytep > row_ptrs( image_height );
+            for( std::size_t y = 0; y < image_height; ++y )
+            {
+                row_ptrs[y] = (png_bytep)( &( rows[y].data()[0] ));
+            }
+
+            for( std::size_t pass = 0; pass < this->_number_passes; pass++ )
+            {
+                png_read_rows( this->get_struct()
+                             , &row_ptrs.front()
+                             , nullptr
+                             , static_cast< png_uint_32 >( image_height )
+                             );
+            }
+
+            for( std::ptrdiff_t y = 0; y < this->_settings._dim.y; ++y )
+            {
+                row_buffer_helper_t& row = rows[ static_cast< std::size_t >( y + this->_settings._top_left.y ) ];
+
+                it_t first = row.begin() + this->_settings._top_left.x;
+                it_t last  = first + this->_settings._dim.x; // one after last element
+
+                this->_cc_policy.read( first
+                                     , last
+                                     , view.row_begin( y ));
+            }
+
+            return;
+        }
+
         for( std::size_t pass = 0; pass < this->_number_passes; pass++ )
         {
             if( pass == this->_number_passes - 1 )
